@@ -405,6 +405,13 @@ def gen0(tier, rng, shard, nshards):
     for n in ([65519, 65520, 65521, 70000] + ([300000] if thorough else [])):
         if mine():
             yield "cfr", f"cfr {C.hx(bytes([rng.getrandbits(8)]) * n)} {C.hx(key16())} {C.hx(b'tail')} {C.hx(key16())}"
+    # long callback streams (one generator frame per packet must not be needed): 1100 and, in the thorough tier, 5000 packets
+    for cnt in ([1100, 5000] if thorough else [1100]):
+        if mine():
+            pk = []
+            for _i in range(cnt):
+                pk += [C.hx(C.rbytes(rng, rng.choice([0, 16, 16, 32]))), C.hx(C.rbytes(rng, 16))]
+            yield "cfr", "cfr " + " ".join(pk)
     # signature lengths other than 16 (correspondence of the mis-framing, oracle not applicable)
     for _ in range((600 if thorough else 80) // nshards):
         pk = []
